@@ -15,7 +15,7 @@ from . import _lp
 ID = 'C10'
 LEVEL = 'exploration'
 ENGINE = 'hypothesis, round trip through the real file reader'
-RULE = ('case = (abstract instance up to 8/12 agents per side incl. ties at start/middle/end, '
+RULE = ('case = (abstract instance up to 12/24 agents per side incl. ties at start/middle/end, '
         'empty second-side lists; whitespace noise; parameter block present or not; -na; '
         '-twopl on or off, off also on files that do contain second-side lists; 30% of the cases '
         'also solve once to obtain get_debug()); non-trivial = at least one tie group and noise '
@@ -25,12 +25,12 @@ ASSUMPTIONS = [
     '"(" glued to the first and ")" to the last member of a tie, no blank line inside the body',
     '-twopl is only given on files whose second-side lists are consistent (C12)',
 ]
-SIZES = {'quick': dict(n1=8, n2=6, n3=5, lmax=6), 'thorough': dict(n1=12, n2=10, n3=8, lmax=10)}
+SIZES = {'quick': dict(n1=12, n2=12, n3=6, lmax=8), 'thorough': dict(n1=24, n2=20, n3=12, lmax=12)}
 SMALL = dict(n1=4, n2=3, n3=3, lmax=3)
 
 
 def budget(tier):
-    return 5000 if tier == 'quick' else 100000
+    return 10000 if tier == 'quick' else 120000
 
 
 @st.composite
